@@ -187,10 +187,11 @@ def c_axil_timeout(cycles, full=False):
     h.functions = [f"litex.soc.interconnect.axi.{'axi_full' if full else 'axi_lite'}.{TO.__name__}.__init__", "litex.gen.genlib.misc.WaitTimer.__init__"]
     return h
 
-def c_bus_errors():
+def c_bus_errors(with_reset=False):
     from litex.soc.integration.soc import SoCController
-    d = mk(SoCController, with_reset=False, with_scratch=False, with_errors=True)
-    h = HwCheck("SoCController.bus_errors", d, [d.bus_error])
+    d = mk(SoCController, with_reset=with_reset, with_scratch=False, with_errors=True)
+    # with_reset (the SoC default): the reset register is software's to write at any time - its fields (cpu_rst, soc_rst) are free in every cycle; every error pulse is still counted
+    h = HwCheck(f"SoCController.bus_errors{'(with_reset)' if with_reset else ''}", d, [d.bus_error] + ([d.cpu_rst, d.soc_rst] if with_reset else []))
     cnt = h.v(d._bus_errors.status)
     be = L(d, "bus_errors")
     reg = h.v(be) if be is not None and be in h.ts.var else None
@@ -248,7 +249,7 @@ def cases(tier):
            Case("wishbone.Crossbar(2x2,timeout=4)", c_wb_shared_timeout, 2, 2, 4, False, True)]
     cs += [Case(f"AXILiteTimeout({t})", c_axil_timeout, t) for t in (1, 4, 16)]
     cs += [Case(f"AXITimeout({t})", c_axil_timeout, t, True) for t in (1, 4)]
-    cs += [Case("SoCController.bus_errors", c_bus_errors), Case("SoC.finalize.bus_error-wiring", c_soc_wiring)]
+    cs += [Case("SoCController.bus_errors", c_bus_errors), Case("SoCController.bus_errors(with_reset)", c_bus_errors, True), Case("SoC.finalize.bus_error-wiring", c_soc_wiring)]
     if tier == "thorough":
         cs += [Case("WaitTimer(1000000)", c_waittimer, 10**6), Case("wishbone.Timeout(128)", c_wb_timeout, 128), Case("AXILiteTimeout(128)", c_axil_timeout, 128),
                Case("wishbone.InterconnectShared(3x3,timeout=8)", c_wb_shared_timeout, 3, 3, 8)]
